@@ -40,6 +40,45 @@ CHECKS = {
          "afterwards. Conflict condition and probe wait come from prober.cpp. Tie: model vs real Prober under virtual time on all "
          "schedules of <= 3 (thorough 4) events on the deadline grid plus random ones; the extracted acceptor judges the implementation.",
          "DESIGN.md section 4 (C07)", "Rocq coupling proof (model run accepted by executable acceptor) + SrcFacts regeneration + differential correspondence under virtual time"),
+ "C08": ("Theorem (Properties_C08.v, partial): no handler invocation of an unregistered hostname object - message, timer, API - produces a "
+         "reply. The remaining clauses (registration only after a full undisturbed 2 s A+AAAA probe for exactly that name, next "
+         "suffixed candidate on conflict, registered name = value of the last change notification through every 30-minute re-probe) "
+         "are decided on every run by the extracted acceptor mon_hostname on the traces of the real Hostname under virtual time and "
+         "of the model (equal by the correspondence), over histories spanning several re-probe cycles; their coupling proof is not yet written.",
+         "DESIGN.md section 4 (C08)", "Rocq proof (partial) on the hostname model + executable acceptor on implementation traces + differential correspondence under virtual time"),
+ "C10": ("Theorem C10_srv_targets_registered (Properties_C10.v): in every state of the provider/hostname/prober composite reachable by any "
+         "sequence of handler invocations (any message, any timer at any instant, update, destroy) every SRV record in every response "
+         "sent has a target that is empty or a name under which the hostname object actually became registered; no answer before "
+         "confirmation. The other clauses (nothing before registration+update+completed probe, nonzero-TTL records under the confirmed "
+         "name, goodbyes only for announced records) are decided per run by the acceptor mon_provider (codes 10-14).",
+         "DESIGN.md section 4 (C10)", "Rocq invariant proof over all reachable composite states + executable acceptor + differential correspondence under virtual time"),
+ "C11": ("Theorem C11_answers (Properties_C11.v): for every provider state and every message, what onMessageReceived sends equals the "
+         "declarative specification spec_prov_reply (question matching, known-answer suppression, PTR implies SRV+TXT, single reply, "
+         "reply addressing); the matching conditions are regenerated from provider.cpp and Record::operator== is tied to same "
+         "name/type/data. Tie: model vs real Provider on generated query messages; the acceptor compares the implementation's replies "
+         "with the specification.",
+         "DESIGN.md section 4 (C11)", "Rocq proof of functional equality with a declarative reply specification + SrcDecisions regeneration + differential correspondence"),
+ "C12": ("Theorems (Properties_C12.v, partial): publish() serves exactly the proposals update() wrote; a completed probe rewrites them to "
+         "the confirmed candidate and publishes, withdrawing what was served. The convergence statement is decided per run by the "
+         "acceptor's final check (codes 30-34: served type, instance = latest probed candidate of the requested name, port, attributes, "
+         "SRV target = registered hostname) on implementation traces over histories of updates, conflicts and re-probes.",
+         "DESIGN.md section 4 (C12/C13)", "Rocq proof (partial) + executable acceptor with end-of-history check + differential correspondence under virtual time"),
+ "C13": ("Theorems (Properties_C13.v, partial): farewell() multicasts exactly the published PTR/SRV/TXT with TTL 0; a re-confirmation says "
+         "goodbye before announcing the replacement; SRV/TXT proposals carry the cache-flush bit. The listener statement is decided per "
+         "run by the acceptor: a reference RFC 6762 cache fed with the provider's multicasts must equal the served records at the end, "
+         "be empty after destruction, and no change of name/type/target may happen without a goodbye (codes 40-42).",
+         "DESIGN.md section 4 (C12/C13)", "Rocq proof (partial) + reference-listener acceptor + differential correspondence under virtual time"),
+ "C16": ("Theorems (Properties_C16.v, partial): shape of the initial A+AAAA query listing exactly the cached address records; every report "
+         "caused by a response comes from an A/AAAA record of exactly the name with nonzero TTL not reported before; received address "
+         "records are stored. Completeness of reporting and the zero-delay report are decided per run by the acceptor mon_resolver "
+         "(reference cache + expected reports) on implementation traces.",
+         "DESIGN.md section 4 (C16)", "Rocq proof (partial) + executable acceptor with reference cache + differential correspondence under virtual time"),
+ "C17": ("Theorem C17_answers (Properties_C17.v): for every interface table, source address and message, the hostname object's reaction "
+         "to a query equals the declarative specification spec_host_reply (first interface containing the source that has an address "
+         "of the asked family; reply rule); generateRecord's three loops are proved equal to that closed form. isInSubnet is modelled, "
+         "not verified; the tie runs the real Hostname against the machine's interface table with sources inside, at the boundary of "
+         "and outside every subnet.",
+         "DESIGN.md section 4 (C17)", "Rocq proof of functional equality with a declarative reply specification + differential correspondence on the machine's interface table"),
  "C18": ("Theorems (Properties_C18.v): the schedule written by addRecord is 50/85/90/95 % + jitter then expiry, strictly increasing "
          "(multipliers, jitter bound and 32-bit arithmetic taken from cache.cpp); under exact scheduling the warnings concerning a "
          "record are exactly the pending warning instants <= t of its current schedule, none for a record that is not stored; "
